@@ -1441,6 +1441,21 @@ func (m *metadataAPI) resetFailovers() {
 // tombstone. Tombstoned streams will be deleted after the recovery process
 // completes.
 func (m *metadataAPI) RemoveStream(stream *stream, recovered bool, epoch uint64) error {
+	if err := m.doRemoveStream(stream, recovered, epoch); err != nil {
+		return err
+	}
+
+	// Tell the consumer groups about the deletion before the next operation
+	// is applied, so that every server sees group changes in commit order
+	// whether it applies the log live or replays it. This must be done outside
+	// of the metadata mutex because rebalancing reads the stream store.
+	for _, group := range m.GetConsumerGroups() {
+		group.StreamDeleted(stream.GetName(), epoch)
+	}
+	return nil
+}
+
+func (m *metadataAPI) doRemoveStream(stream *stream, recovered bool, epoch uint64) error {
 	m.mu.Lock()
 	defer m.mu.Unlock()
 
@@ -1513,9 +1528,9 @@ func (m *metadataAPI) deleteStream(stream *stream, epoch uint64) error {
 	return nil
 }
 
-// removeStream removes the stream from the stream store, cancels any
-// in-flight failovers for its partitions, and triggers a rebalance of consumer
-// group assignments.
+// removeStream removes the stream from the stream store and cancels any
+// in-flight failovers for its partitions. Consumer groups are told about the
+// deletion by RemoveStream, when the delete operation is applied.
 func (m *metadataAPI) removeStream(stream *stream, epoch uint64) {
 	delete(m.streams, stream.GetName())
 	for _, partition := range stream.GetPartitions() {
@@ -1525,13 +1540,6 @@ func (m *metadataAPI) removeStream(stream *stream, epoch uint64) {
 			delete(m.partitionFailovers, partition)
 		}
 	}
-	m.startGoroutine(func() {
-		m.consumerGroupsMu.RLock()
-		for _, group := range m.consumerGroups {
-			group.StreamDeleted(stream.GetName(), epoch)
-		}
-		m.consumerGroupsMu.RUnlock()
-	})
 }
 
 func (m *metadataAPI) getStreams() []*stream {
